@@ -856,18 +856,37 @@ def _extend(root, path):
 
 
 class Facts:
-    def __init__(self, factdir, crates=("nomt", "nomt_core")):
+    def __init__(self, factdir, crates=("nomt", "nomt_core"), use_aliases=True):
         self.dir = factdir
+        self.alias_map = {}
+        texts = {}
+        for c in crates:
+            p = os.path.join(factdir, c + ".json")
+            if os.path.exists(p):
+                with open(p) as fh:
+                    texts[c] = fh.read()
+        self._load(texts, crates)
+        if use_aliases and os.environ.get("VERIF_NO_ALIASES") != "1":
+            import aliases
+
+            anchors = aliases.load()
+            missing = [n for n in anchors.get("functions", {}) if n not in self.bodies and n.split("::", 1)[0].lstrip("<") in crates] + [n for n in anchors.get("adts", {}) if n not in self.adts and n.split("::", 1)[0] in crates]
+            if missing:
+                adt_map, fn_map = aliases.resolve(self.bodies, self.adts, anchors)
+                if adt_map or fn_map:
+                    texts = {c: aliases.rewrite_text(t, adt_map, fn_map) for c, t in texts.items()}
+                    self._load(texts, crates)
+                    self.alias_map = {"types": adt_map, "functions": fn_map}
+
+    def _load(self, texts, crates):
         self.bodies = {}
         self.adts = {}
         self.impls = []
         self.crates = {}
         for c in crates:
-            p = os.path.join(factdir, c + ".json")
-            if not os.path.exists(p):
+            if c not in texts:
                 continue
-            with open(p) as fh:
-                j = json.load(fh)
+            j = json.loads(texts[c])
             self.crates[c] = j["n_bodies"]
             for b in j["bodies"]:
                 body = Body(b, c)
